@@ -12,6 +12,14 @@ evaluates an offline history checker after sender drop and receiver exit:
    queue, contiguous per sender, and is counted by `queue_full_truncated`; items pending at
    teardown are tolerated only when the scenario dropped the receiver early;
 5. sequential histories are compared step by step with a queue model through `verif_snapshot()`.
+
+`stress` section (native only, tiny under the sanitizer lane): the truncation accounting while several
+senders truncate AT THE SAME TIME. Capacity 1-8, 2-16 sender threads doing nothing but plain sends
+(10^4-10^5 each), so nearly every send truncates; (a) the receiver never runs while they send and,
+at quiescence, `sent == queue_full_truncated x capacity + queue_length` through the public
+`metric_source()`, then the queue is drained and its own account of the `clear()` calls compared;
+(b) a slow receiver thread runs next to the senders and, with ids, `sent == delivered +
+queue_full_truncated x capacity`, lost == exactly what the truncations removed, each a whole-queue run.
 */
 
 #[path = "../shared/chan.rs"]
@@ -73,8 +81,22 @@ fn main() {
         }
     };
 
+    // 0 = sanitizer lane (tiny), 1 = quick, 2 = thorough
+    let stress_size: u8 = if args.lane == "tsan" { 0 } else if args.thorough() { 2 } else { 1 };
+
     if let Some(path) = &args.replay {
         let case = load_replay(path);
+        #[cfg(not(miri))]
+        if case.get("section").and_then(|v| v.as_str()) == Some("stress") {
+            let cseed = case.get("seed").and_then(|v| v.as_u64()).unwrap_or(seed);
+            let round = case.get("round").and_then(|v| v.as_u64()).unwrap_or(0);
+            emit_batcher::verif::set_delay_divisor(1000);
+            for _ in 0..8 {
+                stress_round(&mut r, "C06", &gen_stress(cseed, round, stress_size));
+            }
+            emit_batcher::verif::set_delay_divisor(1);
+            std::process::exit(r.finish());
+        }
         let i = case.get("case").and_then(|v| v.as_u64()).unwrap_or(0);
         let reps = if cfg!(miri) { 1 } else { 300 };
         for _ in 0..reps {
@@ -86,6 +108,24 @@ fn main() {
 
     let n = args.get_u64("histories", args.n(3_000, 200_000));
     par_cases(&mut r, &args, n, run_case);
+    // the truncation accounting under concurrent truncations: the rounds run one after the other, each owns the machine
+    #[cfg(not(miri))]
+    if args.get("stress").map(|v| v != "0").unwrap_or(true) {
+        emit_batcher::verif::set_delay_divisor(1000);
+        let rounds = args.get_u64("stress-rounds", match stress_size {
+            0 => 6,
+            1 => 24,
+            _ => 150,
+        });
+        let (mut trunc, mut overlapping) = (0u64, 0u64);
+        for k in 0..rounds {
+            let seen = stress_round(&mut r, "C06", &gen_stress(seed, k, stress_size));
+            trunc += seen.truncations;
+            overlapping += seen.overlapping;
+        }
+        r.set("stress_rounds", json!({"rounds": rounds, "truncations": trunc, "truncations_overlapping_other_sends": overlapping}));
+        emit_batcher::verif::set_delay_divisor(1);
+    }
     // metrics sampled next to a live channel: slow, panicking and re-entrant samplers must not cost an accepted item
     #[cfg(not(miri))]
     if args.lane != "tsan" {
